@@ -14,15 +14,18 @@ from symx.stubs import shadow
 
 ID = "C08"
 TECHNIQUE = ("the real JobExecutor.join, the processResults of the reward/task-execution/propagation/prediction/update registrations, TaskingEngine bookkeeping, "
-             "CentralizedTaskingEngine.assess and (step-* obligations) the real Scenario.stepForward around it, with sensing agents built by the real SensingAgent constructor, "
-             "are executed with ray replaced by a stub whose completion order is a solver variable per ray.wait call, "
-             "worker results carrying symbolic payloads (metric values, boresight vectors, times, observe-or-miss bits); on every feasible path z3 proves the "
-             "bookkeeping oracle over the symbolic payloads (unsat): exactly one record per pair of the published decision matrix, sensor_changes and - after stepForward - the "
-             "sensor agents' boresight/time_last_tasked equal to their own job's report whether the sensor observed or missed, update jobs fed with their own target's observations; "
-             "so all completion orders and all tasking outcomes within the bounds are covered")
+             "CentralizedTaskingEngine.assess, (step-* obligations) the real Scenario.stepForward around it and (stored-* obligations) the real Scenario.propagateTo with the real "
+             "saveDatabaseOutput, with sensing agents built by the real SensingAgent constructor, are executed with ray replaced by a stub whose completion order is a solver variable per ray.wait call; "
+             "every task-execution job runs the real body of asyncExecuteTasking on the submission, its sensors' collections carrying symbolic payloads (boresight vectors, times, observe-or-miss bits); "
+             "reward jobs return symbolic visibility bits; the database output interval is a solver variable; on every feasible path z3 proves the "
+             "bookkeeping oracle over the symbolic payloads (unsat): the worker's result reports every tasked sensor once with its own pointing state, exactly one record per pair of the published "
+             "decision matrix, sensor_changes and - after stepForward - the sensor agents' boresight/time_last_tasked equal to what the sensor's own collection returned whether it observed or missed, "
+             "update jobs fed with their own target's observations, every collected record handed to the database exactly once in the first output after its step; "
+             "so all completion orders, all tasking outcomes and all output intervals within the bounds are covered")
 FLOAT_SEMANTICS = "exact (payloads are opaque reals; only equality and comparisons matter)"
 ENCODED = ["resonaate.parallel.tasking_execution:asyncExecuteTasking._function",
     "resonaate.parallel:JobExecutor.enqueueJob", "resonaate.parallel:JobExecutor.join",
+    "resonaate.parallel.tasking_execution:TaskExecutionRegistration.generateSubmission",
     "resonaate.parallel.tasking_execution:TaskExecutionRegistration.processResults",
     "resonaate.parallel.tasking_reward_generation:TaskingRewardRegistration.processResults",
     "resonaate.parallel.agent_propagation:PropagateRegistration.processResults",
@@ -31,27 +34,39 @@ ENCODED = ["resonaate.parallel.tasking_execution:asyncExecuteTasking._function",
     "resonaate.tasking.engine.engine_base:TaskingEngine.getCurrentMissedObservations",
     "resonaate.tasking.engine.engine_base:TaskingEngine.setHandles", "resonaate.tasking.engine.engine_base:TaskingEngine.resetHandles",
     "resonaate.tasking.engine.centralized_engine:CentralizedTaskingEngine.assess",
-    "resonaate.scenario.scenario:Scenario.stepForward",
+    "resonaate.tasking.engine.centralized_engine:CentralizedTaskingEngine.getCurrentTasking",
+    "resonaate.scenario.scenario:Scenario.stepForward", "resonaate.scenario.scenario:Scenario.propagateTo", "resonaate.scenario.scenario:Scenario.saveDatabaseOutput",
     "resonaate.agents.sensing_agent:SensingAgent.__init__", "resonaate.agents.sensing_agent:SensingAgent.updateInfo", "resonaate.agents.sensing_agent:SensingAgent.sensors",
 ]
-BOUNDS = {"network": "2 targets x 3 sensors (quick), 3 x 3 (thorough); greedy and all-visible policies; through Scenario.stepForward: 2 x 2 greedy and all-visible (quick), plus 2 x 3 greedy (thorough)",
-          "jobs": "<= 3 jobs per batch, every completion order of the reward and task-execution batches",
+BOUNDS = {"network": "2 targets x 3 sensors (quick), 3 x 3 (thorough); greedy and all-visible policies; through Scenario.stepForward: 2 x 2 greedy and all-visible (quick), plus 2 x 3 greedy (thorough); "
+                     "through Scenario.propagateTo/saveDatabaseOutput: 2 x 1 greedy and 1 x 2 all-visible (quick), plus 2 x 2 greedy (thorough)",
+          "jobs": "<= 3 jobs per batch, every completion order of the reward and task-execution batches; <= 3 tasked sensors per task-execution job",
           "outcomes": "every observe-or-miss split of the tasked sensors (including a tasked sensor whose only record is a miss); arbitrary boresights and times; fixed distinct metric values, every visibility pattern",
-          "steps": "two consecutive assess calls; one stepForward (quick), two (thorough)"}
-OUTSIDE = ["Ray's delivery guarantees and pickling", "worker-side computation (C02)", "random noise values", "estimate update/predict payload contents and the merge of the update/prediction batches "
-           "(in the step-* obligations the propagate/predict/update registrations are recorded, not executed; the propagation merge is propagate-merge)",
+          "steps": "two consecutive assess calls; one stepForward (quick), two (thorough); stored-*: 2 steps with a database output every 1 or 2 steps (quick), 3 steps with an output every 1, 2 or 3 steps (thorough), "
+                   "a final output collecting what is still buffered"}
+OUTSIDE = ["Ray's delivery guarantees and pickling", "what a sensor's collectObservations computes (C02)", "random noise values", "estimate update/predict payload contents and the merge of the update/prediction batches "
+           "(in the step-* and stored-* obligations the propagate/predict/update registrations are recorded, not executed; the propagation merge is propagate-merge)",
            "scenario events inside the step (C01)", "the ThreeSigmaObs debugging branch of stepForward (default configuration: off)", "more than one tasking engine per scenario",
-           "background (non-primary) observations returned by a task-execution job"]
+           "background (non-primary) observations returned by a task-execution job",
+           "which of its jobs' pointing reports a sensor tasked on several targets in one step ends up with (the last finished job's; any of them is accepted)",
+           "the database itself (SQLAlchemy session, epoch rows, foreign keys: C09); tasking rows of steps that are not output steps (none are written)",
+           "filter-step and detected-maneuver rows of saveDatabaseOutput (save_filter_steps off, no maneuver detected)"]
 ASSUMPTIONS = ["ray.wait(refs) returns exactly one finished reference, chosen by the solver among the pending ones; ray.get returns the job's result; ray.put is identity",
-               "remote functions are replaced by providers of symbolic results (their computation is the subject of C02/C06); a task-execution job reports one record and one pointing update per tasked sensor",
+               "the reward remote function is replaced by a provider of symbolic results (its computation is the subject of C06/C07); the task-execution remote function is the real body of "
+               "asyncExecuteTasking applied to a by-value copy of the submission (fresh dict / list containers, as after Ray's deserialisation)",
+               "Sensor.collectObservations of every tasked sensor is a provider: it returns one record of the tasked target (an observation or a miss, solver-chosen) and a symbolic boresight / "
+               "time_last_tasked, and leaves the main-process agent object untouched (the real worker operates on a pickled copy)",
                "database event query in assess returns no events",
-               "step-* obligations: Scenario object built without its constructor (attributes of the real constructor set by hand: clock, agents, stores, executors); handleRelevantEvents/getRelevantEvents "
-               "return nothing; EventStack flush is a no-op; Propagate/EstPredict/EstUpdate registrations and their executors are recorders (arguments kept, nothing executed); "
-               "targets and estimates are identity tokens; sensing agents come from the real constructor with real Optical sensors and concrete states",
-               "the tasked pairs of a step are the True cells of the engine's decision_matrix after assess()"]
-LEVEL_TEXT = ("Bounded symbolic verification of the merge logic: all completion orders of the reward and task-execution batches and all observe/miss outcomes of a small network are "
-              "paths of one symbolic execution of the real assess() (and of the real Scenario.stepForward around it); exactly-one-record per decided pair, sensor state (engine side and agent side) "
-              "and order independence are proved on each path over symbolic payloads.")
+               "step-* and stored-* obligations: Scenario object built without its constructor (attributes of the real constructor set by hand: clock, agents, stores, executors, time and estimation configuration); "
+               "handleRelevantEvents/getRelevantEvents return nothing; EventStack flush is a no-op; Propagate/EstPredict/EstUpdate registrations and their executors are recorders (arguments kept, nothing executed); "
+               "targets and estimates are identity tokens (their ephemeris rows are tokens); sensing agents come from the real constructor with real Optical sensors and concrete states",
+               "stored-* obligations: the database is a recorder (getData finds no epoch, insertData/bulkSave keep what they are given); the harness observes the engine after each stepForward that the real "
+               "propagateTo takes; when the last step is not an output step one more saveDatabaseOutput() is called",
+               "the tasked pairs of a step are the True cells of the engine's decision_matrix after assess()",
+               "the missed observations of a step are the members of engine.missed_observations not seen in an earlier step (the list is cumulative in the current code)"]
+LEVEL_TEXT = ("Bounded symbolic verification of the merge logic: all completion orders of the reward and task-execution batches, all observe/miss outcomes of a small network and all database output "
+              "intervals are paths of one symbolic execution of the real assess() (of the real Scenario.stepForward / propagateTo around it) with the real task-execution job body; exactly-one-record per decided pair, "
+              "sensor state (job result, engine side and agent side), stored batches and order independence are proved on each path over symbolic payloads.")
 LEVEL_NOTE = "Small network bound; Ray replaced by a nondeterministic-order stub; payload contents opaque."
 
 
@@ -68,6 +83,16 @@ class Tok:
         return True
 
 
+def _choose(k, lo, hi):
+    """The value of the solver variable k on this path, lo <= k <= hi: one fork per feasible value (a chain of path decisions `k == v`,
+    which costs no solver call when a path prefix is re-executed)."""
+    assume(k.t >= lo, k.t <= hi)
+    for v in range(lo, hi):
+        if cur().branch(k.t == v):
+            return v
+    return hi
+
+
 class RayStub:
     """ray.wait / get / put with a solver-chosen completion order."""
 
@@ -82,16 +107,17 @@ class RayStub:
         if len(refs) == 1:
             i = 0
         else:
-            k = integer(f"finish_{self.nwait}")
-            assume(k.t >= 0, k.t < len(refs))
-            i = k.concretize()
+            i = _choose(integer(f"finish_{self.nwait}"), 0, len(refs) - 1)
         self.order.append(refs[i])
         return [refs[i]], refs[:i] + refs[i + 1:]
 
     def get(self, ref):
         if isinstance(ref, list):
             return [self.get(r) for r in ref]
-        return self.results.get(ref, ref)
+        try:
+            return self.results.get(ref, ref)
+        except TypeError:  # an unhashable handle: ray.put was the identity
+            return ref
 
     def put(self, x):
         return x
@@ -108,15 +134,40 @@ class Remote:
         return ref
 
 
+class _Collect:
+    """Stands for `Sensor.collectObservations` of one sensor (its computation is the subject of C02): hands back what this sensor saw of the tasked
+    target and where it points afterwards.  It does not touch the agent object of the main process - the real worker works on a pickled copy, so
+    the job's report is the only way the new pointing state can reach the scenario."""
+
+    def __init__(self, sid, provider):
+        self.sid, self.provider = sid, provider
+
+    def __call__(self, estimate_eci, target_agent, background_agents):
+        return self.provider(self.sid, target_agent.simulation_id)
+
+
 class FakeSensor:
-    def __init__(self, sid):
+    def __init__(self, sid, collect=None):
         self.simulation_id = sid
         self.measurement = None
+        self.sensors = types.SimpleNamespace(collectObservations=collect(sid) if collect else None)
 
 
 class FakeEstimate:
     def __init__(self, tid):
         self.simulation_id = tid
+        self.eci_state = np.zeros(6)
+
+
+def _worker(TE):
+    """The real body of the task-execution job (what Ray runs on the worker)."""
+    fn = TE.asyncExecuteTasking
+    return getattr(fn, "_function", fn)
+
+
+def _by_value(TE, sub):
+    """Ray hands the worker a deserialised copy of the submission: the containers are the worker's own."""
+    return TE.TaskExecutionSubmission(sub.estimate_handle, dict(sub.target_handles), list(sub.sensor_handle_list))
 
 
 def _engine(targets, sensors, policy):
@@ -138,9 +189,15 @@ class _TokAgent:
     """A target / estimate agent as far as the tasking step is concerned: an identity."""
 
     realtime = True
+    maneuver_detected = False
 
-    def __init__(self, aid):
+    def __init__(self, aid, role="agent"):
         self.simulation_id = aid
+        self.role = role
+        self.eci_state = np.zeros(6)
+
+    def getCurrentEphemeris(self):
+        return Tok("ephem-" + self.role, self.simulation_id, None, 0)
 
 
 class _Reg:
@@ -161,12 +218,28 @@ class _NoExec:
         pass
 
 
+class _RecDB:
+    """The output database as far as Scenario.saveDatabaseOutput is concerned: no epoch is present yet, every saved batch is kept."""
+
+    def __init__(self):
+        self.batches, self.epochs, self.tag = [], [], [None]
+
+    def getData(self, query, multi=True):
+        return [] if multi else None
+
+    def insertData(self, *rows):
+        self.epochs.extend(rows)
+
+    def bulkSave(self, rows):
+        self.batches.append((self.tag[0], list(rows)))
+
+
 def _pointing(agent):
     """(boresight, time_last_tasked) of a sensing agent as seen through its public attributes."""
     return list(agent.sensors.boresight), agent.sensors.time_last_tasked
 
 
-def _bare_scenario(targets, sensors, eng):
+def _bare_scenario(targets, sensors, eng, collect=None):
     """A Scenario (bare object, attributes of the real constructor) around the real engine: real clock object, sensing agents
     from the real SensingAgent constructor with real Optical sensors, identity tokens for targets and estimates."""
     from resonaate.agents.sensing_agent import SensingAgent
@@ -184,16 +257,20 @@ def _bare_scenario(targets, sensors, eng):
     for k, sid in enumerate(sensors):
         sen = Optical(az_mask=np.array([0.0, 359.0]), el_mask=np.array([0.0, 90.0]), r_matrix=np.diag([1e-8, 1e-8]), diameter=1.0, efficiency=0.9, slew_rate=1.0,
                       field_of_view=types.SimpleNamespace(), background_observations=False, minimum_range=0.0, maximum_range=1e6, detectable_vismag=20.0)
+        if collect is not None:
+            sen.collectObservations = collect(sid)  # what the sensor sees is the subject of C02
         agents[sid] = SensingAgent(sid, f"S{sid}", "GroundFacility", np.array([6378.0, 10.0 * k, 0.0, 0.0, 0.46, 0.0]), clock, sen, TwoBody(), True, 10.0, 100.0, 0.2)
     sc = object.__new__(SC.Scenario)
     sc.clock = clock
     sc.current_julian_date = clock.julian_date_epoch
-    sc.database = object()
+    sc.database = _RecDB()
     nul = lambda *a, **k: None  # noqa: E731
     sc.logger = types.SimpleNamespace(info=nul, error=nul, debug=nul, warning=nul)
-    sc.scenario_config = types.SimpleNamespace(propagation=types.SimpleNamespace(truth_simulation_only=False))
-    sc.target_agents = {t: _TokAgent(t) for t in targets}
-    sc._estimate_agents = {t: _TokAgent(t) for t in targets}
+    sc.scenario_config = types.SimpleNamespace(propagation=types.SimpleNamespace(truth_simulation_only=False),
+                                               time=types.SimpleNamespace(physics_step_sec=ScenarioTime(60.0), output_step_sec=ScenarioTime(60.0)))
+    sc.estimation_config = types.SimpleNamespace(sequential_filter=types.SimpleNamespace(save_filter_steps=False))
+    sc.target_agents = {t: _TokAgent(t, "target") for t in targets}
+    sc._estimate_agents = {t: _TokAgent(t, "estimate") for t in targets}
     sc._sensor_agents = agents
     sc._tasking_engines = {eng.unique_id: eng}
     sc._ephem_importer = None
@@ -211,8 +288,53 @@ def _scenario_shadows(rayst):
                   getRelevantEvents=lambda *a, **k: [], PropagateRegistration=_Reg, EstPredictRegistration=_Reg, EstUpdateRegistration=_Reg)
 
 
+def _drive(sc, eng, steps, via, output_every, targets, sensors, collect, one_step):
+    """Run `steps` time steps.  via="assess": the engine's assess() is called directly; via="scenario": the real Scenario.stepForward drives it and
+    applies the results; via="stored": the real Scenario.propagateTo drives stepForward and saveDatabaseOutput with an output interval of
+    `output_every` physics steps (a final saveDatabaseOutput collects what is still buffered).  `one_step(st, advance)` is called once per step:
+    it calls advance() to take the step and records what the step handed out."""
+    from resonaate.physics.time.stardate import ScenarioTime
+    from resonaate.scenario import scenario as SC
+
+    if via == "assess":
+        for st in range(steps):
+            def advance(st=st):
+                eng.setHandles({t: FakeEstimate(t) for t in targets}, {s: FakeSensor(s, collect) for s in sensors}, {t: FakeEstimate(t) for t in targets})
+                t0 = _dt.datetime(2021, 1, 1, 0, st, 0)
+                eng.assess(t0, t0 + _dt.timedelta(seconds=60))
+            one_step(st, advance)
+            eng.resetHandles()
+    elif via == "scenario":
+        for st in range(steps):
+            one_step(st, sc.stepForward)
+    else:
+        sc.scenario_config.time.output_step_sec = ScenarioTime(60.0 * output_every)
+        count = [0]
+        real_step = sc.stepForward
+
+        def stepped():
+            st = count[0]
+            count[0] += 1
+            sc.database.tag[0] = st
+            one_step(st, real_step)
+
+        sc.stepForward = stepped  # observation point after every step the real propagateTo takes
+        sc.propagateTo(ScenarioTime(60.0 * steps).convertToJulianDate(sc.clock.julian_date_start))
+        if count[0] != steps:
+            raise AssertionError(f"propagateTo took {count[0]} steps instead of {steps}")
+        if not any(tag == steps - 1 for tag, _rows in sc.database.batches):
+            SC.Scenario.saveDatabaseOutput(sc)
+
+
+def _new_by_identity(items, seen):
+    """The items not met before (the engine's missed_observations property is cumulative today; a per-step list gives the same answer)."""
+    out = [x for x in items if id(x) not in seen]
+    seen.update(id(x) for x in items)
+    return out
+
+
 def _run_assess(targets, sensors, policy, steps=1, via="assess"):
-    """via="assess": the engine's assess() is called directly; via="scenario": the real Scenario.stepForward drives it and applies the results."""
+    """The real engine (and scenario) on symbolic job results; see _drive for `via`."""
     from resonaate.parallel import tasking_execution as TE
     from resonaate.parallel import tasking_reward_generation as TR
     from resonaate.tasking.engine import centralized_engine as CE
@@ -222,9 +344,10 @@ def _run_assess(targets, sensors, policy, steps=1, via="assess"):
     eng = _engine(targets, sensors, policy)
     K = eng.num_metrics
     nS = len(sensors)
-    log = {"exec": [], "reward": {}}
+    log = {"exec": [], "reward": {}, "truth": {}, "batches": [], "output_every": 1}
     counter = [0]
     step = [0]
+    worker = _worker(TE)
 
     def reward_fn(sub):
         tid = sub.estimate_handle.simulation_id
@@ -236,51 +359,62 @@ def _run_assess(targets, sensors, policy, steps=1, via="assess"):
         log["reward"][(step[0], tid)] = res
         return res
 
+    def sees(sid, tid):
+        """One tasked sensor's collection: an observation or a miss of the tasked target, and the sensor's pointing state afterwards."""
+        counter[0] += 1
+        seen = bool(boolean(f"observed{step[0]}_{tid}_{sid}"))
+        tok = Tok("obs" if seen else "miss", tid, sid, counter[0])
+        bore, tlt = reals(f"bore{step[0]}_{tid}_{sid}", 3), real(f"tlt{step[0]}_{tid}_{sid}")
+        log["truth"][(step[0], tid, sid)] = {"sensor_id": sid, "observations": [tok] if seen else [], "missed_observations": [] if seen else [tok],
+                                             "boresight": bore, "time_last_tasked": tlt}
+        return ([tok] if seen else []), ([] if seen else [tok]), bore, tlt
+
+    collect = lambda sid: _Collect(sid, sees)  # noqa: E731
+
     def exec_fn(sub):
         tid = sub.estimate_handle.simulation_id
-        obs, miss, info = [], [], []
-        for sh in sub.sensor_handle_list:
-            sid = sh.simulation_id
-            counter[0] += 1
-            if boolean(f"observed{step[0]}_{tid}_{sid}"):
-                obs.append(Tok("obs", tid, sid, counter[0]))
-            else:
-                miss.append(Tok("miss", tid, sid, counter[0]))
-            info.append({"sensor_id": sid, "boresight": reals(f"bore{step[0]}_{tid}_{sid}", 3), "time_last_tasked": real(f"tlt{step[0]}_{tid}_{sid}")})
-        res = TE.TaskExecutionResult(target_id=tid, observations=obs, missed_observations=miss, sensor_info_list=info)
-        log["exec"].append((step[0], tid, [sh.simulation_id for sh in sub.sensor_handle_list], res))
+        sids = [sh.simulation_id for sh in sub.sensor_handle_list]
+        res = worker(_by_value(TE, sub))
+        log["exec"].append((step[0], tid, sids, res))
         return res
 
     snaps = []
-    sc = _bare_scenario(targets, sensors, eng) if via == "scenario" else None
+    sc = _bare_scenario(targets, sensors, eng, collect) if via != "assess" else None
+    output_every = 1
+    if via == "stored" and steps > 1:
+        output_every = _choose(integer("output_every"), 1, steps)
+    log["output_every"] = output_every
+    seen_miss = set()
+
+    def one_step(st, advance):
+        step[0] = st
+        extra = {}
+        if sc is not None:
+            extra["pointing_before"] = {sid: _pointing(a) for sid, a in sc.sensor_agents.items()}
+            sc._estimate_updater.regs.clear()
+        advance()
+        if sc is not None:
+            extra["pointing_after"] = {sid: _pointing(a) for sid, a in sc.sensor_agents.items()}
+            extra["updates"] = [reg.args for reg in sc._estimate_updater.regs]
+            extra["estimates"] = dict(sc.estimate_agents)
+        drain = via != "stored"  # "stored": the real saveDatabaseOutput drains the buffers
+        snaps.append({
+            "observations": list(eng.observations), "step_miss": _new_by_identity(list(eng.missed_observations), seen_miss),
+            "saved_obs": list(eng.getCurrentObservations()) if drain else None,
+            "saved_miss": list(eng.getCurrentMissedObservations()) if drain else None, "sensor_changes": dict(eng.sensor_changes),
+            "decision": np.array(eng.decision_matrix, dtype=object), "visibility": np.array(eng.visibility_matrix, dtype=object),
+            "metric": np.array(eng.metric_matrix, dtype=object), "order": list(rayst.order),
+            "unfinished": (len(eng._reward_executor._unfinished_jobs), len(eng._reward_executor._result_reg_mapping),
+                           len(eng._task_exec_executor._unfinished_jobs), len(eng._task_exec_executor._result_reg_mapping)),
+            **extra,
+        })
+
     with shadow(P, ray=rayst), shadow(CE, ray=rayst, handleRelevantEvents=lambda *a, **k: None, zeros=_zeros_vis), \
-            shadow(TR, asyncCalculateReward=Remote(rayst, reward_fn, "reward")), shadow(TE, asyncExecuteTasking=Remote(rayst, exec_fn, "exec")):
-        for st in range(steps):
-            step[0] = st
-            extra = {}
-            if sc is None:
-                eng.setHandles({t: FakeEstimate(t) for t in targets}, {s: FakeSensor(s) for s in sensors}, {t: FakeEstimate(t) for t in targets})
-                t0 = _dt.datetime(2021, 1, 1, 0, st, 0)
-                eng.assess(t0, t0 + _dt.timedelta(seconds=60))
-            else:
-                extra["pointing_before"] = {sid: _pointing(a) for sid, a in sc.sensor_agents.items()}
-                sc._estimate_updater.regs.clear()
-                with _scenario_shadows(rayst):
-                    sc.stepForward()
-                extra["pointing_after"] = {sid: _pointing(a) for sid, a in sc.sensor_agents.items()}
-                extra["updates"] = [reg.args for reg in sc._estimate_updater.regs]
-                extra["estimates"] = dict(sc.estimate_agents)
-            snaps.append({
-                "observations": list(eng.observations), "saved_obs": list(eng.getCurrentObservations()),
-                "saved_miss": list(eng.getCurrentMissedObservations()), "sensor_changes": dict(eng.sensor_changes),
-                "decision": np.array(eng.decision_matrix, dtype=object), "visibility": np.array(eng.visibility_matrix, dtype=object),
-                "metric": np.array(eng.metric_matrix, dtype=object), "order": list(rayst.order),
-                "unfinished": (len(eng._reward_executor._unfinished_jobs), len(eng._reward_executor._result_reg_mapping),
-                               len(eng._task_exec_executor._unfinished_jobs), len(eng._task_exec_executor._result_reg_mapping)),
-                **extra,
-            })
-            if sc is None:
-                eng.resetHandles()
+            shadow(TR, asyncCalculateReward=Remote(rayst, reward_fn, "reward")), shadow(TE, ray=rayst, asyncExecuteTasking=Remote(rayst, exec_fn, "exec")), \
+            _scenario_shadows(rayst):
+        _drive(sc, eng, steps, via, output_every, targets, sensors, collect, one_step)
+    if sc is not None:
+        log["batches"] = list(sc.database.batches)
     return eng, log, snaps
 
 
@@ -322,8 +456,10 @@ def _payload(st, tid, sid):
 
 
 def _concrete_assess(d):
-    """The real assess() / stepForward() on plain values, with its own oracle stated over what the step hands out: the decision matrix names the
-    tasked pairs; records, sensor_changes, the sensors' pointing state and the update jobs' observation lists are compared with the workers' results."""
+    """The real assess() / stepForward() / propagateTo() on plain values, with its own oracle stated over what the step hands out: the decision matrix
+    names the tasked pairs; records, sensor_changes, the sensors' pointing state, the update jobs' observation lists and the batches handed to the
+    database are compared with what the tasked sensors collected."""
+    from resonaate.data.task import Task
     from resonaate.parallel import tasking_execution as TE
     from resonaate.parallel import tasking_reward_generation as TR
     from resonaate.tasking.engine import centralized_engine as CE
@@ -331,6 +467,7 @@ def _concrete_assess(d):
 
     targets, sensors, policy = d["targets"], d["sensors"], d["policy"]
     steps, via = int(d.get("steps", 1)), d.get("via", "assess")
+    output_every = int(d.get("output_every", 1))
     eng = _engine(targets, sensors, policy)
 
     class FixedRay(RayStub):
@@ -344,6 +481,7 @@ def _concrete_assess(d):
     rayst = FixedRay()
     cnt = [0]
     step = [0]
+    worker = _worker(TE)
 
     def key(tid, sid=None):
         # evidence written before the multi-step replay existed has no step prefix
@@ -357,85 +495,156 @@ def _concrete_assess(d):
         return TR.RewardCalcResult(estimate_id=tid, visibility=np.array(vis, dtype=bool), metric_matrix=np.array(met, dtype=float))
 
     jobs = []
-    results = {}
+    truth = {}
+
+    def sees(sid, tid):
+        cnt[0] += 1
+        seen = d["observed"].get(key(tid, sid), d["observed"].get(f"{tid}_{sid}", False))
+        tok = Tok("obs" if seen else "miss", tid, sid, cnt[0])
+        bore, tlt = _payload(step[0], tid, sid)
+        truth[(step[0], tid, sid)] = tok
+        return ([tok] if seen else []), ([] if seen else [tok]), bore, tlt
+
+    collect = lambda sid: _Collect(sid, sees)  # noqa: E731
 
     def exec_fn(sub):
         tid = sub.estimate_handle.simulation_id
-        obs, miss, info = [], [], []
-        for sh in sub.sensor_handle_list:
-            sid = sh.simulation_id
-            cnt[0] += 1
-            seen = d["observed"].get(key(tid, sid), d["observed"].get(f"{tid}_{sid}", False))
-            (obs if seen else miss).append(Tok("obs" if seen else "miss", tid, sid, cnt[0]))
-            bore, tlt = _payload(step[0], tid, sid)
-            info.append({"sensor_id": sid, "boresight": bore, "time_last_tasked": tlt})
-        jobs.append((step[0], tid, [sh.simulation_id for sh in sub.sensor_handle_list]))
-        res = TE.TaskExecutionResult(target_id=tid, observations=obs, missed_observations=miss, sensor_info_list=info)
-        results[(step[0], tid)] = (list(obs), list(miss))
+        sids = [sh.simulation_id for sh in sub.sensor_handle_list]
+        jobs.append((step[0], tid, sids))
+        res = worker(_by_value(TE, sub))
+        # the worker's result: the job's own target, the records its sensors collected (each once), one pointing report per tasked sensor (its own)
+        tag = f"step {step[0]}: job of target {tid} with sensors {sids}: "
+        mine = [truth[(step[0], tid, sid)] for sid in sids]
+        if res.target_id != tid:
+            problems.append(tag + f"result names target {res.target_id}")
+        if sorted(map(id, list(res.observations) + list(res.missed_observations))) != sorted(map(id, mine)) or any(t.kind != "obs" for t in res.observations) \
+                or any(t.kind != "miss" for t in res.missed_observations):
+            problems.append(tag + "result's records are not the records the tasked sensors collected")
+        reported = sorted(i_["sensor_id"] for i_ in res.sensor_info_list)
+        if reported != sorted(sids):
+            problems.append(tag + f"result reports the pointing state of sensors {reported}")
+        for i_ in res.sensor_info_list:
+            if i_["sensor_id"] in sids:
+                b, t = _payload(step[0], tid, i_["sensor_id"])
+                if not (np.array_equal(np.array(i_["boresight"], dtype=float), b) and float(i_["time_last_tasked"]) == t):
+                    problems.append(tag + f"pointing report of sensor {i_['sensor_id']} is not what that sensor's collection returned")
         return res
 
     problems = []
-    sc = _bare_scenario(targets, sensors, eng) if via == "scenario" else None
-    with shadow(P, ray=rayst), shadow(CE, ray=rayst, handleRelevantEvents=lambda *a, **k: None), \
-            shadow(TR, asyncCalculateReward=Remote(rayst, reward_fn, "reward")), shadow(TE, asyncExecuteTasking=Remote(rayst, exec_fn, "exec")):
-        for st in range(steps):
-            step[0] = st
-            if sc is None:
-                eng.setHandles({t: FakeEstimate(t) for t in targets}, {s: FakeSensor(s) for s in sensors}, {t: FakeEstimate(t) for t in targets})
-                t0 = _dt.datetime(2021, 1, 1, 0, st, 0)
-                eng.assess(t0, t0 + _dt.timedelta(seconds=60))
-            else:
-                before = {sid: _pointing(a) for sid, a in sc.sensor_agents.items()}
-                sc._estimate_updater.regs.clear()
-                with _scenario_shadows(rayst):
-                    sc.stepForward()
-            tag = f"step {st}: "
-            D = np.array(eng.decision_matrix, dtype=bool)
-            obs_now, saved_obs, miss_now = list(eng.observations), list(eng.getCurrentObservations()), list(eng.getCurrentMissedObservations())
-            recs = obs_now + miss_now
-            # exactly one record per tasked pair (the decision matrix names the tasked pairs), none for the others
-            for ti, tid in enumerate(targets):
-                for si, sid in enumerate(sensors):
-                    n = sum(1 for r in recs if (r.target_id, r.sensor_id) == (tid, sid))
-                    if n != (1 if D[ti, si] else 0):
-                        problems.append(tag + f"pair (t{tid},s{sid}) tasked={bool(D[ti, si])} has {n} records")
-            # the records are the workers' records, the list kept for the database equals the list of the step
-            want_obs = [o for (s_, _t), (ob, _m) in results.items() if s_ == st for o in ob]
-            want_miss = [m for (s_, _t), (_o, mi) in results.items() if s_ == st for m in mi]
-            if sorted(map(id, obs_now)) != sorted(map(id, want_obs)) or sorted(map(id, saved_obs)) != sorted(map(id, want_obs)):
-                problems.append(tag + "observations differ from the workers' observations")
-            if sorted(map(id, miss_now)) != sorted(map(id, want_miss)):
-                problems.append(tag + "missed observations differ from the workers' missed observations")
-            # pointing state: every tasked sensor carries what (one of) its job(s) reported; nobody else is touched
+    sc = _bare_scenario(targets, sensors, eng, collect) if via != "assess" else None
+    seen_miss = set()
+    decisions = {}
+
+    def one_step(st, advance):
+        step[0] = st
+        if sc is not None:
+            before = {sid: _pointing(a) for sid, a in sc.sensor_agents.items()}
+            sc._estimate_updater.regs.clear()
+        advance()
+        tag = f"step {st}: "
+        D = np.array(eng.decision_matrix, dtype=bool)
+        decisions[st] = (D, np.array(eng.visibility_matrix, dtype=bool))
+        obs_now, miss_step = list(eng.observations), _new_by_identity(list(eng.missed_observations), seen_miss)
+        recs = obs_now + miss_step
+        # exactly one record per tasked pair (the decision matrix names the tasked pairs), none for the others
+        for ti, tid in enumerate(targets):
             for si, sid in enumerate(sensors):
-                tids = [tid for ti, tid in enumerate(targets) if D[ti, si]]
-                allowed = [_payload(st, tid, sid) for tid in tids]
-                ch = eng.sensor_changes.get(sid)
-                if tids and ch is None:
-                    problems.append(tag + f"tasked sensor {sid} missing from sensor_changes")
-                elif tids and not any(np.array_equal(np.array(ch["boresight"], dtype=float), b) and float(ch["time_last_tasked"]) == t for b, t in allowed):
-                    problems.append(tag + f"sensor_changes[{sid}] is not what a job of sensor {sid} reported")
-                elif not tids and ch is not None:
-                    problems.append(tag + f"untasked sensor {sid} in sensor_changes")
-                if sc is not None:
-                    bore, tlt = _pointing(sc.sensor_agents[sid])
-                    if tids and not any(np.array_equal(np.array(bore, dtype=float), b) and float(tlt) == t for b, t in allowed):
-                        problems.append(tag + f"tasked sensor {sid}: pointing state after the step (time_last_tasked={float(tlt)}) is not what its job reported")
-                    if not tids and not (np.array_equal(np.array(bore, dtype=float), np.array(before[sid][0], dtype=float)) and float(tlt) == float(before[sid][1])):
-                        problems.append(tag + f"untasked sensor {sid}: pointing state changed")
-            # reward batch: each row from its own estimate
-            for ti, tid in enumerate(targets):
-                vis = d["vis"].get(key(tid), d["vis"].get(str(tid)))
-                if [bool(x) for x in eng.visibility_matrix[ti]] != [bool(x) for x in vis]:
-                    problems.append(tag + f"visibility row of target {tid} is not its own job's result")
-            if (len(eng._reward_executor._unfinished_jobs), len(eng._reward_executor._result_reg_mapping),
-                    len(eng._task_exec_executor._unfinished_jobs), len(eng._task_exec_executor._result_reg_mapping)) != (0, 0, 0, 0):
-                problems.append(tag + "executors not drained")
+                n = sum(1 for r in recs if (r.target_id, r.sensor_id) == (tid, sid))
+                if n != (1 if D[ti, si] else 0):
+                    problems.append(tag + f"pair (t{tid},s{sid}) tasked={bool(D[ti, si])} has {n} records")
+        # the records are what the tasked sensors collected; the lists kept for the database equal the lists of the step
+        want_obs = [t for (s_, _t, _s), t in truth.items() if s_ == st and t.kind == "obs"]
+        want_miss = [t for (s_, _t, _s), t in truth.items() if s_ == st and t.kind == "miss"]
+        if sorted(map(id, obs_now)) != sorted(map(id, want_obs)):
+            problems.append(tag + "observations differ from what the tasked sensors collected")
+        if sorted(map(id, miss_step)) != sorted(map(id, want_miss)):
+            problems.append(tag + "missed observations differ from what the tasked sensors missed")
+        if via != "stored":
+            saved_obs, saved_miss = list(eng.getCurrentObservations()), list(eng.getCurrentMissedObservations())
+            if sorted(map(id, saved_obs)) != sorted(map(id, want_obs)):
+                problems.append(tag + "observations kept for the database differ from the step's observations")
+            if sorted(map(id, saved_miss)) != sorted(map(id, want_miss)):
+                problems.append(tag + "missed observations kept for the database differ from the step's missed observations")
+        # pointing state: every tasked sensor carries what its own collection (for one of its jobs) returned; nobody else is touched
+        for si, sid in enumerate(sensors):
+            tids = [tid for ti, tid in enumerate(targets) if D[ti, si]]
+            allowed = [_payload(st, tid, sid) for tid in tids]
+            ch = eng.sensor_changes.get(sid)
+            if tids and ch is None:
+                problems.append(tag + f"tasked sensor {sid} missing from sensor_changes")
+            elif tids and not any(np.array_equal(np.array(ch["boresight"], dtype=float), b) and float(ch["time_last_tasked"]) == t for b, t in allowed):
+                problems.append(tag + f"sensor_changes[{sid}] is not what sensor {sid} reported")
+            elif not tids and ch is not None:
+                problems.append(tag + f"untasked sensor {sid} in sensor_changes")
             if sc is not None:
-                problems += [tag + p_ for p_ in _update_routing_problems(targets, [reg.args for reg in sc._estimate_updater.regs], dict(sc.estimate_agents), obs_now)]
-            else:
-                eng.resetHandles()
-    return bool(problems), {"problems": problems, "jobs": jobs}
+                bore, tlt = _pointing(sc.sensor_agents[sid])
+                if tids and not any(np.array_equal(np.array(bore, dtype=float), b) and float(tlt) == t for b, t in allowed):
+                    problems.append(tag + f"tasked sensor {sid}: pointing state after the step (time_last_tasked={float(tlt)}) is not what its collection returned")
+                if not tids and not (np.array_equal(np.array(bore, dtype=float), np.array(before[sid][0], dtype=float)) and float(tlt) == float(before[sid][1])):
+                    problems.append(tag + f"untasked sensor {sid}: pointing state changed")
+        # reward batch: each row from its own estimate
+        for ti, tid in enumerate(targets):
+            vis = d["vis"].get(key(tid), d["vis"].get(str(tid)))
+            if [bool(x) for x in eng.visibility_matrix[ti]] != [bool(x) for x in vis]:
+                problems.append(tag + f"visibility row of target {tid} is not its own job's result")
+        if (len(eng._reward_executor._unfinished_jobs), len(eng._reward_executor._result_reg_mapping),
+                len(eng._task_exec_executor._unfinished_jobs), len(eng._task_exec_executor._result_reg_mapping)) != (0, 0, 0, 0):
+            problems.append(tag + "executors not drained")
+        if sc is not None:
+            problems.extend(tag + p_ for p_ in _update_routing_problems(targets, [reg.args for reg in sc._estimate_updater.regs], dict(sc.estimate_agents), obs_now))
+
+    with shadow(P, ray=rayst), shadow(CE, ray=rayst, handleRelevantEvents=lambda *a, **k: None), \
+            shadow(TR, asyncCalculateReward=Remote(rayst, reward_fn, "reward")), shadow(TE, ray=rayst, asyncExecuteTasking=Remote(rayst, exec_fn, "exec")), \
+            _scenario_shadows(rayst):
+        _drive(sc, eng, steps, via, output_every, targets, sensors, collect, one_step)
+    if via == "stored":
+        produced = {id(t): (st, t) for (st, _t, _s), t in truth.items()}
+        problems += _stored_problems(sc.database.batches, produced, steps, targets, sensors,
+                                     lambda st, ti, si, row: bool(row.decision) == bool(decisions[st][0][ti, si]) and bool(row.visibility) == bool(decisions[st][1][ti, si]), Task)
+    return bool(problems), {"problems": problems, "jobs": jobs, "output_every": output_every}
+
+
+def _stored_problems(batches, produced, steps, targets, sensors, task_ok, Task):
+    """What Scenario.saveDatabaseOutput handed to the database over the run: every record a tasked sensor collected is stored exactly once, in the
+    first batch written after its step; nothing else of that kind is stored; every batch carries one tasking row per pair, showing the step's
+    decision and visibility, and one ephemeris row per agent.  `produced`: id(record) -> (step, record)."""
+    problems = []
+    out_steps = [tag for tag, _rows in batches]
+    if out_steps != sorted(set(out_steps)) or not out_steps or out_steps[-1] != steps - 1:
+        problems.append(f"database batches written after steps {out_steps} (last step {steps - 1})")
+    times = {}
+    for tag, rows in batches:
+        for r in rows:
+            if isinstance(r, Tok) and r.kind in ("obs", "miss"):
+                times.setdefault(id(r), []).append(tag)
+                if id(r) not in produced:
+                    problems.append(f"stored record {r} was not collected by a tasked sensor")
+        tasks = [r for r in rows if isinstance(r, Task)]
+        for ti, tid in enumerate(targets):
+            for si, sid in enumerate(sensors):
+                mine = [r for r in tasks if (r.target_id, r.sensor_id) == (tid, sid)]
+                if len(mine) != 1:
+                    problems.append(f"batch after step {tag}: {len(mine)} tasking rows for pair (t{tid},s{sid})")
+                elif not task_ok(tag, ti, si, mine[0]):
+                    problems.append(f"batch after step {tag}: tasking row of pair (t{tid},s{sid}) does not show the step's decision / visibility")
+        if len(tasks) != len(targets) * len(sensors):
+            problems.append(f"batch after step {tag}: {len(tasks)} tasking rows")
+        # one state row per agent (targets / estimates: their tokens; sensors: the real TruthEphemeris of the sensing agent)
+        for role, ids in (("ephem-target", targets), ("ephem-estimate", targets)):
+            for aid in ids:
+                n_rows = sum(1 for r in rows if isinstance(r, Tok) and r.kind == role and r.target_id == aid)
+                if n_rows != 1:
+                    problems.append(f"batch after step {tag}: {n_rows} {role} rows of agent {aid}")
+        for sid in sensors:
+            n_rows = sum(1 for r in rows if not isinstance(r, (Tok, Task)) and getattr(r, "agent_id", None) == sid)
+            if n_rows != 1:
+                problems.append(f"batch after step {tag}: {n_rows} state rows of sensor {sid}")
+    for st, rec in produced.values():
+        due = min([t for t in out_steps if t >= st], default=None)
+        got = times.get(id(rec), [])
+        if got != [due]:
+            problems.append(f"record {rec} of step {st} stored after steps {got}, expected exactly once after step {due}")
+    return problems
 
 
 def _update_routing_problems(targets, updates, estimates, observations):
@@ -486,8 +695,22 @@ def o_assess(rep, nT, nS, policy, steps=1, via="assess"):
                 for si, sid in enumerate(sensors):
                     # the decision bit (a term over the visibility bits) must equal "sensor sid is in target tid's job"
                     goals.append(_tb(D[ti, si]) == z3.BoolVal(sid in in_job))
+            # (w) the worker's result (the real asyncExecuteTasking body): the job's own target, the records the tasked sensors collected (each once)
+            #     and one pointing report per tasked sensor, carrying that sensor's own boresight / time
+            truth = log["truth"]
+            for tid, sids, res_ in jobs:
+                mine = [truth[(st, tid, sid)] for sid in sids]
+                goals.append(z3.BoolVal(res_.target_id == tid))
+                goals.append(z3.BoolVal(sorted(map(id, res_.observations)) == sorted(id(o) for t_ in mine for o in t_["observations"])))
+                goals.append(z3.BoolVal(sorted(map(id, res_.missed_observations)) == sorted(id(o) for t_ in mine for o in t_["missed_observations"])))
+                goals.append(z3.BoolVal(sorted(i_["sensor_id"] for i_ in res_.sensor_info_list) == sorted(sids)))
+                for i_ in res_.sensor_info_list:
+                    t_ = truth.get((st, tid, i_["sensor_id"]))
+                    if t_ is not None:
+                        goals.append(z3.And(_tr(i_["time_last_tasked"]) == _tr(t_["time_last_tasked"]), z3.BoolVal(len(i_["boresight"]) == len(t_["boresight"])),
+                                            *[_tr(a_) == _tr(b_) for a_, b_ in zip(i_["boresight"], t_["boresight"])]))
             # (b) exactly one record per tasked pair, never both, never duplicated; saved lists equal
-            recs_obs, recs_miss = snap["observations"], snap["saved_miss"]
+            recs_obs, recs_miss = snap["observations"], snap["step_miss"]
             for tid, sids, res_ in jobs:
                 for sid in sids:
                     n_o = sum(1 for x in recs_obs if (x.target_id, x.sensor_id) == (tid, sid))
@@ -498,16 +721,18 @@ def o_assess(rep, nT, nS, policy, steps=1, via="assess"):
                 for si, sid in enumerate(sensors):
                     n_r = sum(1 for x in list(recs_obs) + list(recs_miss) if (x.target_id, x.sensor_id) == (tid, sid))
                     goals.append(z3.If(_tb(D[ti, si]), z3.BoolVal(n_r == 1), z3.BoolVal(n_r == 0)))
-            want_obs = [o for _t, _s, res_ in jobs for o in res_.observations]
-            want_miss = [o for _t, _s, res_ in jobs for o in res_.missed_observations]
+            want_obs = [o for tid, sids, _r in jobs for sid in sids for o in truth[(st, tid, sid)]["observations"]]
+            want_miss = [o for tid, sids, _r in jobs for sid in sids for o in truth[(st, tid, sid)]["missed_observations"]]
             goals.append(z3.BoolVal(sorted(map(id, recs_obs)) == sorted(map(id, want_obs))))
-            goals.append(z3.BoolVal(sorted(map(id, snap["saved_obs"])) == sorted(map(id, want_obs))))
             goals.append(z3.BoolVal(sorted(map(id, recs_miss)) == sorted(map(id, want_miss))))
-            # (c) every tasked sensor's pointing state reflects its job (sensor tasked once), symbolic payload equality
+            if snap["saved_obs"] is not None:  # the buffers for the database, drained after every step (via="stored": drained by saveDatabaseOutput, below)
+                goals.append(z3.BoolVal(sorted(map(id, snap["saved_obs"])) == sorted(map(id, want_obs))))
+                goals.append(z3.BoolVal(sorted(map(id, snap["saved_miss"])) == sorted(map(id, want_miss))))
+            # (c) every tasked sensor's pointing state is what its own collection returned (for one of its jobs), symbolic payload equality
             tasked_by = {}
             for tid, sids, res_ in jobs:
-                for info in res_.sensor_info_list:
-                    tasked_by.setdefault(info["sensor_id"], []).append(info)
+                for sid in sids:
+                    tasked_by.setdefault(sid, []).append(truth[(st, tid, sid)])
             sc = snap["sensor_changes"]
             for sid, infos in tasked_by.items():
                 if sid not in sc:
@@ -526,7 +751,7 @@ def o_assess(rep, nT, nS, policy, steps=1, via="assess"):
                     goals.append(_tb(snap["visibility"][ti, si]) == _tb(rr.visibility[si]))
             # (e) executors drained
             goals.append(z3.BoolVal(snap["unfinished"] == (0, 0, 0, 0)))
-            if via == "scenario":
+            if via != "assess":
                 # (f) after the real stepForward every tasked sensor *agent* carries the pointing state its job reported (observed or missed alike);
                 #     a sensor no job reported on keeps the state it had before the step
                 for sid in sensors:
@@ -553,12 +778,27 @@ def o_assess(rep, nT, nS, policy, steps=1, via="assess"):
             hints = {"slewed-and-missed": any(sid not in observing for (_t, sid) in {(x.target_id, x.sensor_id) for x in recs_miss}),
                      "lowest-sensor-alone": any(sids == [sensors[0]] for _t, sids, _r in jobs), "two-jobs": len(jobs) >= 2,
                      "shared-target": any(len(sids) >= 2 for _t, sids, _r in jobs)}
-            for c in classes:
+            for c in hints:
                 classes[c].append((bool(hints[c]), conds[c], r.constraints))
+        if via == "stored":
+            # (s) what the real saveDatabaseOutput handed to the database over the run (output every `output_every` steps, solver-chosen)
+            from resonaate.data.task import Task
+
+            def task_ok(st_, ti, si, row, snaps=snaps, goals=goals):
+                goals.append(z3.And(_tb(row.decision) == _tb(snaps[st_]["decision"][ti, si]), _tb(row.visibility) == _tb(snaps[st_]["visibility"][ti, si])))
+                return True
+
+            produced = {id(o): (st_, o) for (st_, _t, _s), t_ in log["truth"].items() for o in t_["observations"] + t_["missed_observations"]}
+            goals.append(z3.BoolVal(not _stored_problems(log["batches"], produced, steps, targets, sensors, task_ok, Task)))
+            k_out = log["output_every"]
+            buffered = lambda kind: any(o.kind == kind and (st_ + 1) % k_out != 0 and st_ != steps - 1 for st_, o in produced.values())  # noqa: E731
+            for c, h in (("miss-kept-across-steps", buffered("miss")), ("observation-kept-across-steps", buffered("obs")), ("output-every-step", k_out == 1 and steps > 1)):
+                classes.setdefault(c, []).append((bool(h), z3.BoolVal(bool(h)), r.constraints))
         n += 1
 
         def inputs(m, r=r, log=log, snaps=snaps):
-            d = {"targets": targets, "sensors": sensors, "policy": policy, "steps": steps, "via": via, "order": {}, "vis": {}, "met": {}, "observed": {}}
+            d = {"targets": targets, "sensors": sensors, "policy": policy, "steps": steps, "via": via, "order": {}, "vis": {}, "met": {}, "observed": {},
+                 "output_every": log["output_every"]}
             for k in range(1, 1 + 2 * nT * steps):
                 v = m.eval(z3.Int(f"finish_{k}"), model_completion=True)
                 d["order"][str(k)] = v.as_long()
@@ -572,19 +812,24 @@ def o_assess(rep, nT, nS, policy, steps=1, via="assess"):
             return d
 
         what = "one record per tasked pair, saved lists exact, sensor state from own job, reward rows from own estimate, executors drained"
-        if via == "scenario":
+        if via == "stored":
+            what = ("through the real Scenario.propagateTo / saveDatabaseOutput with a solver-chosen output interval: every collected record stored exactly once in the first batch after its "
+                    "step, tasking rows show the step's decision; " + what)
+        elif via == "scenario":
             what = "after the real Scenario.stepForward: " + what + "; tasked sensor agents carry their job's boresight/time_last_tasked (observed or missed), untasked ones unchanged; update jobs get their own target's observations"
         rep.prove(f"{policy}[{nT}x{nS}]#{n}", z3.And(*goals), r.constraints, inputs=inputs, replay=replay_assess, sample=f"{policy} {nT}x{nS}: {what}")
     rep.note(f"distinct completion orders explored: {len(orders_seen)}; paths by class: { {c: sum(1 for h, _c, _k in v if h) for c, v in classes.items()} }")
     if len(orders_seen) < 2 and nT > 1:
         rep.error("reach", "only one completion order explored")
     # vacuity guards (reachability twins): each interesting tasking outcome is satisfiable on some explored path
-    need = ["two-jobs"] if nT > 1 else []
+    need = ["two-jobs"] if nT > 1 and (nS > 1 or policy != "greedy") else []
     need += ["slewed-and-missed"]
     if nT > 1 and nS > 1:
         need += ["lowest-sensor-alone"]
     if policy != "greedy" and nS > 1:
         need += ["shared-target"]
+    if via == "stored" and steps > 1:
+        need += ["miss-kept-across-steps", "observation-kept-across-steps", "output-every-step"]
     from symx.core import solve
 
     for c in need:
@@ -675,6 +920,15 @@ def obligations(tier):
         obs.append(Ob(name, (lambda a: lambda rep: o_assess(rep, *a, via="scenario"))((nT, nS, pol, steps)),
                       f"Scenario.stepForward around assess(): sensor agents' pointing state and update routing, {pol} {nT}x{nS}, {steps} step(s), all completion orders", 1500))
         REPLAYS[name] = replay_assess
+    # several steps through the real Scenario.propagateTo with the real saveDatabaseOutput: what reaches the database, for every output interval
+    stored = [("greedy", 2, 1, 2), ("allvisible", 1, 2, 2)]
+    if tier == "thorough":
+        stored += [("greedy", 2, 2, 2), ("allvisible", 1, 2, 3)]
+    for pol, nT, nS, steps in stored:
+        name = f"stored-{pol}-{nT}x{nS}-steps{steps}"
+        obs.append(Ob(name, (lambda a: lambda rep: o_assess(rep, *a, via="stored"))((nT, nS, pol, steps)),
+                      f"Scenario.propagateTo (stepForward + saveDatabaseOutput, solver-chosen output interval): stored records and tasking rows, {pol} {nT}x{nS}, {steps} steps, all completion orders", 1500))
+        REPLAYS[name] = replay_assess
     obs.append(Ob("propagate-merge", o_propagate_merge, "propagation results applied once to their own agent in any order", 300))
     # the worker side of "exactly one record per tasked pair": the real asyncExecuteTasking body on symbolic sensor constraints
     # (obligation shared with C02: oracle O2-exactly-one / O3-pointing over the worker's returned lists)
@@ -693,5 +947,6 @@ try:
     obligations("thorough")
 except Exception:  # noqa: BLE001  (a broken neighbour harness must not hide this module's own replays)
     for _n in ("assess-greedy-2x3", "assess-allvisible-2x2", "assess-greedy-2x2-steps2", "assess-greedy-3x3", "assess-allvisible-2x3",
-               "step-greedy-2x2", "step-allvisible-2x2", "step-greedy-2x3", "step-greedy-2x2-steps2"):
+               "step-greedy-2x2", "step-allvisible-2x2", "step-greedy-2x3", "step-greedy-2x2-steps2",
+               "stored-greedy-2x1-steps2", "stored-allvisible-1x2-steps2", "stored-greedy-2x2-steps2", "stored-allvisible-1x2-steps3"):
         REPLAYS.setdefault(_n, replay_assess)
